@@ -26,8 +26,14 @@ class Wire:
         self.grading = Grading(self.length)
 
         # multiple wires can be at the same spot; this list holds other
-        # coincident wires
-        self.coincidents: Set[Wire] = set()
+        # coincident wires, in the order they were found
+        # (iteration must not depend on object addresses)
+        self.coincident_list: List[Wire] = []
+
+    @property
+    def coincidents(self) -> Set["Wire"]:
+        """Wires of other blocks at the same spot"""
+        return set(self.coincident_list)
 
     @property
     def length(self) -> float:
@@ -54,7 +60,8 @@ class Wire:
     def add_coincident(self, wire):
         """Adds a reference to a coincident wire, if it's aligned"""
         if self.is_coincident(wire):
-            self.coincidents.add(wire)
+            if wire not in self.coincident_list:
+                self.coincident_list.append(wire)
 
     def add_chop(self, chop: Chop) -> None:
         """Adds Chops to this Wire's Grading object"""
